@@ -10,6 +10,9 @@ Vocabulary (Lemmas/NumFmt.lean):
   `SameValue m e m' e'` — `m·10^e = m'·10^e'`.
 -/
 import NumbersModel.Lemmas.NumFmt
+import NumbersModel.Lemmas.CustomFmt
+import NumbersModel.Lemmas.LimitDen
+import NumbersModel.Lemmas.SciFmt
 import NumbersModel.Gen.Constants
 namespace NumbersModel.Props.C13
 open NumbersModel NumbersModel.Digits NumbersModel.NumFmt
@@ -109,13 +112,34 @@ theorem auto_reads_back (d : Dec) (f : DecFmt) (hp : f.places ≥ AUTO) :
 
 /-! ## scientific -/
 
-/-- The mantissa digits of the scientific format are the value's leading digits rounded to `places+1`
-    significant digits, nearest with ties to even.  (Full statement — the text `d.ddd E±xx` read back is
-    `mantissa · 10^exponent` — is not proved: `_partial`.) -/
-theorem scientific_mantissa_partial (m k : Nat) :
-    Nearest m k (dropHalfEven m k) ∧
-    (k ≠ 0 → 2 * (m % 10 ^ k) = 10 ^ k → dropHalfEven m k % 2 = 0) :=
-  ⟨dropHalfEven_nearest m k, fun hk ht => dropHalfEven_tie m k hk ht⟩
+/-- **scientific notation reads back** — the text `d.ddd E±xx` that `f"{v:.{p}E}"` produces, parsed again (`readSci`: sign,
+    the mantissa digits as one integer `m`, the exponent of its last digit `e − p`), denotes `m · 10^(e − p)` where: for
+    zero `m = 0`; otherwise the mantissa is normalised (`10^p ≤ m < 10^(p+1)`: one non-zero leading digit and exactly `p`
+    decimals); a value with at most `p+1` significant digits is shown exactly; a longer one is its leading `p+1` digits
+    rounded to nearest, ties to even — the carry `9.995 → 1.00E+01` (rounding up to `10^(p+1)`) is renormalised without
+    changing the value. -/
+theorem scientific_mantissa (d : Dec) (p : Nat) :
+    let m := (sciParts d p).1
+    let e := (sciParts d p).2
+    readSci (formatScientific d p) = some (d.neg, m, e - (p : Int)) ∧
+    (d.mant = 0 → m = 0) ∧
+    (d.mant ≠ 0 → 10 ^ p ≤ m ∧ m < 10 ^ (p + 1)) ∧
+    (d.mant ≠ 0 → numDigits d.mant ≤ p + 1 → SameValue m (e - (p : Int)) d.mant d.exp) ∧
+    (d.mant ≠ 0 → p + 1 < numDigits d.mant →
+      let k := numDigits d.mant - (p + 1)
+      SameValue m (e - (p : Int)) (dropHalfEven d.mant k) (d.exp + (k : Int)) ∧
+      Nearest d.mant k (dropHalfEven d.mant k) ∧
+      (2 * (d.mant % 10 ^ k) = 10 ^ k → dropHalfEven d.mant k % 2 = 0)) := by
+  intro m e
+  obtain ⟨h0, hnorm, hexact, hround⟩ := sciParts_spec d p
+  have hlt : m < 10 ^ (p + 1) := by
+    by_cases hm : d.mant = 0
+    · have : m = 0 := by show (sciParts d p).1 = 0; rw [h0 hm]
+      rw [this]; exact Nat.pow_pos (by omega)
+    · exact (hnorm hm).2
+  refine ⟨?_, fun hm => by show (sciParts d p).1 = 0; rw [h0 hm], hnorm, hexact, fun hm hgt => ?_⟩
+  · rw [formatScientific_eq]; exact readSci_sciText d.neg p m e hlt
+  · exact ⟨hround hm hgt, dropHalfEven_nearest _ _, fun ht => dropHalfEven_tie _ _ (by omega) ht⟩
 
 /-! ## number bases -/
 
@@ -190,18 +214,32 @@ theorem fraction_parts_normal_form (whole numerator : Int) (den : Nat) :
       else if n = 0 then ['0']
       else (if neg then ['-'] else []) ++ natStr n ++ ['/'] ++ natStr den := fractionParts_spec whole numerator den
 
-/-- **up-to-N-digit fractions** — whenever `limit_denominator` returns, its denominator lies in
-    `1 … 10^N − 1`.  Not proved (hence `_partial`): that the loop always returns for a fraction in lowest terms
-    (no ZeroDivisionError, fuel suffices) and that the result is the closest fraction with such a denominator
-    (optimality of the continued-fraction convergents); both are exercised by the correspondence and the
-    oracle (exhaustive search over all admissible denominators). -/
-theorem fraction_ndigit_partial (digits : Nat) (hd : 1 ≤ digits) (num den p q : Int) (hden : 0 < den)
-    (h : limitDenominator ((10 : Int) ^ digits - 1) num den = .ok (p, q)) :
-    1 ≤ q ∧ q ≤ (10 : Int) ^ digits - 1 := by
+/-- **up-to-N-digit fractions** — `Fraction(num, den).limit_denominator(10^N − 1)` as CPython 3.12 computes it, for
+    every fraction in lowest terms (`den ≥ 1`) and every `N ≥ 1`: the loop always returns (no ZeroDivisionError, the fuel
+    of the model suffices); the denominator returned lies in `1 … 10^N − 1`; the result is in lowest terms; and it is a
+    best approximation: no fraction `u/w` with `1 ≤ w ≤ 10^N − 1` is strictly closer to `num/den`
+    (`|num/den − p/q| ≤ |num/den − u/w|`, stated cross-multiplied by `den·q·w > 0`). -/
+theorem fraction_ndigit (digits : Nat) (hd : 1 ≤ digits) (num den : Int) (hden : 0 < den) (hcop : Int.gcd num den = 1) :
+    ∃ p q, limitDenominator ((10 : Int) ^ digits - 1) num den = .ok (p, q) ∧
+      1 ≤ q ∧ q ≤ (10 : Int) ^ digits - 1 ∧ (∃ x y : Int, p * x + q * y = 1) ∧
+      ∀ u w : Int, 1 ≤ w → w ≤ (10 : Int) ^ digits - 1 →
+        ((num * q - den * p).natAbs : Int) * w ≤ ((num * w - den * u).natAbs : Int) * q := by
   have : (10 : Int) ≤ 10 ^ digits := by
     calc (10 : Int) = 10 ^ 1 := by norm_num
       _ ≤ 10 ^ digits := pow_le_pow_right₀ (by norm_num) hd
-  exact limitDenominator_bound _ num den (by omega) hden p q h
+  exact limitDenominator_spec _ num den (by omega) hden hcop
+
+/-- the same for any limit `M ≥ 1` (the loop of `limit_denominator` in general). -/
+theorem limit_denominator_best (M num den : Int) (hM : 1 ≤ M) (hden : 0 < den) (hcop : Int.gcd num den = 1) :
+    ∃ p q, limitDenominator M num den = .ok (p, q) ∧ 1 ≤ q ∧ q ≤ M ∧ (∃ x y : Int, p * x + q * y = 1) ∧
+      ∀ u w : Int, 1 ≤ w → w ≤ M →
+        ((num * q - den * p).natAbs : Int) * w ≤ ((num * w - den * u).natAbs : Int) * q :=
+  limitDenominator_spec M num den hM hden hcop
+
+/-- hence `_float_to_n_digit_fraction` displays something for every value. -/
+theorem fraction_ndigit_total (digits : Nat) (hd : 1 ≤ digits) (num : Int) (den : Nat) (hden : 0 < den)
+    (hcop : Int.gcd num den = 1) : ∃ t, fractionDigits digits num den = .ok t :=
+  fractionDigits_returns digits hd num den hden hcop
 
 /-! ## rating -/
 
@@ -226,5 +264,199 @@ example : fractionParts (-2) (-1) 2 = "-2 1/2".toList ∧ fractionParts 2 4 4 = 
 example : fractionDigits 1 7074029114692207 2251799813685248 = .ok "3 1/7".toList := by decide
 example : formatScientific ⟨false, 2675, -3⟩ 2 = "2.68E+00".toList ∧ formatScientific ⟨false, 25, -1⟩ 0 = "2E+00".toList := by
   decide
+example : formatScientific ⟨true, 9995, -3⟩ 2 = "-1.00E+01".toList ∧ readSci "-1.00E+01".toList = some (true, 100, -1) ∧
+    formatScientific ⟨false, 0, 0⟩ 3 = "0.000E+00".toList ∧ readSci "1.5E-07".toList = some (false, 15, -8) := by decide
+
+/-! ## custom number patterns (`_decode_number_format`, `_expand_quotes`, `Cell._custom_format`)
+
+Vocabulary (Lemmas/CustomFmt.lean): `intDigits body` / `fracDigits body` — the digits before / after the decimal point
+of the number text; `padRight n s` — `s` completed with zeros to `n` places; `literalBefore a m` / `literalAfter a m` —
+the pattern text before / after the spec with quotes expanded (functions of the pattern alone);
+`WellFormed zeros a` — the spec found in the pattern starts with a dot or holds at most one, and a scientific spec has
+a decimal part of at least four characters.  The value is the float the code formats (`value * scale_factor`, and
+that times `100.0` for a `%` pattern), supplied by the harness as `Decimal(repr(·))`. -/
+
+section Custom
+open NumbersModel.CustomFmt
+
+theorem format_types_as_modelled :
+    (Gen.formatTypes.map fun e => (e.1, FormatType.ofCode e.2)) =
+      [("BOOLEAN", .boolean), ("DECIMAL", .decimal), ("CURRENCY", .currency), ("PERCENT", .percent),
+       ("SCIENTIFIC", .scientific), ("TEXT", .other), ("DATE", .other), ("FRACTION", .fraction), ("CHECKBOX", .checkbox),
+       ("RATING", .rating), ("DURATION", .other), ("BASE", .base), ("CUSTOM_NUMBER", .customNumber),
+       ("CUSTOM_TEXT", .customText), ("CUSTOM_DATE", .customDate), ("CUSTOM_CURRENCY", .other)] ∧
+    Gen.paddingTypes = [("NONE", 0), ("ZEROS", 1), ("SPACES", 2)] := by decide
+
+/-- which product is shown: `value·scale_factor`, times 100 exactly when the pattern holds a `%` and the scale is 1. -/
+theorem custom_percent_scale (a : Archive) (v v100 : FloatVal) :
+    chosenValue a v v100 = if a.formatString.contains '%' ∧ a.scaleIsOne = true then v100 else v := by
+  unfold chosenValue
+  cases a.formatString.contains '%' <;> cases a.scaleIsOne <;> simp
+
+/-- **custom digits read back** — with the spec found at `m` (not scientific) and split into `ip . dp`, the text shown is
+    literal text, number text, literal text; in the number text the digits before the point read as `iv`, the digits
+    after it (at most as many as the pattern has decimal tokens; completed with zeros) as `fv`, and
+    `iv·10^nd + fv` is `|value|·10^nd` rounded half up: exact when nothing has to be dropped, otherwise within half a
+    unit of the last place the pattern shows, ties away from zero. -/
+theorem custom_digits_read_back (zeros : List Nat) (a : Archive) (v v100 : FloatVal) (m : SpecMatch) (ip dp : Text)
+    (hm : findSpec zeros (maskQuoted (patternOf a) false) 0 = some m) (hs : splitSpec m.spec = .ok (ip, dp))
+    (hsci : m.sci = false) :
+    let r := (chosenValue a v v100).repr
+    let nd := dp.length
+    ∃ body iv fv,
+      decodeNumberFormat zeros a v v100 = .ok (literalBefore a m ++ body ++ literalAfter a m) ∧
+      readDigits (intDigits body) 0 = some iv ∧ (fracDigits body).length ≤ nd ∧
+      readDigits (padRight nd (fracDigits body)) 0 = some fv ∧ fv < 10 ^ nd ∧
+      iv * 10 ^ nd + fv = scaleTo r nd ∧
+      ((0 ≤ r.exp + (nd : Int) ∧ scaleTo r nd = r.mant * 10 ^ (r.exp + (nd : Int)).toNat) ∨
+       (r.exp + (nd : Int) < 0 ∧ Nearest r.mant (-(r.exp + (nd : Int))).toNat (scaleTo r nd) ∧
+          2 * r.mant < 2 * (scaleTo r nd * 10 ^ (-(r.exp + (nd : Int))).toNat) + 10 ^ (-(r.exp + (nd : Int))).toNat)) := by
+  intro r nd
+  obtain ⟨body, hb, hd⟩ := decode_structure zeros a v v100 m ip dp hm hs hsci
+  obtain ⟨iv, fv, h1, h2, h3, h4, h5⟩ := numberBody_reads_back a ip dp r body hb
+  refine ⟨body, iv, fv, hd, h1, h2, h3, h4, h5, ?_⟩
+  rcases scaleTo_spec r nd with ⟨h1, h2⟩ | ⟨h1, h2, h3⟩
+  · exact Or.inl ⟨h1, h2⟩
+  · refine Or.inr ⟨h1, ?_, ?_⟩
+    · rw [h2]; exact (dropHalfUp_nearest _ _).1
+    · rw [h2]; exact (dropHalfUp_nearest _ _).2 h3
+
+/-- **custom sign** — the number text holds one minus sign exactly when the value is negative and is not displayed as
+    zero (its rounding to the decimals the pattern shows is not zero), and none otherwise: `-0.23` under `#.#` keeps its
+    sign, `-0.004` under `0.00` shows none. -/
+theorem custom_sign (a : Archive) (ip dp : Text) (value : Dec) (body : Text) (h : numberBody a ip dp value = .ok body) :
+    body.filter (· == '-') = if value.isNeg = true ∧ scaleTo value dp.length ≠ 0 then ['-'] else [] :=
+  numberBody_sign a ip dp value body h
+
+/-- every character of the number text is a digit, a grouping comma, the minus sign, a padding space or the decimal
+    point (so none is a quote), and the number text is never empty. -/
+theorem custom_number_text_alphabet (a : Archive) (ip dp : Text) (value : Dec) (body : Text)
+    (h : numberBody a ip dp value = .ok body) :
+    body ≠ [] ∧ ∀ c ∈ body, isDigit c = true ∨ c = ',' ∨ c = '-' ∨ c = ' ' ∨ c = '.' := by
+  obtain ⟨hne, hc⟩ := numberBody_chars a ip dp value body h
+  refine ⟨hne, fun c hcm => ?_⟩
+  rcases hc c hcm with (h | h | h | h) | h
+  · exact Or.inl h
+  · exact Or.inr (Or.inl h)
+  · exact Or.inr (Or.inr (Or.inl h))
+  · exact Or.inr (Or.inr (Or.inr (Or.inl h)))
+  · exact Or.inr (Or.inr (Or.inr (Or.inr h)))
+
+/-- **custom literals pass through** — (1) whatever the pattern, the text before and after the number depends on the
+    pattern only (`literalBefore`, `literalAfter` do not mention the value) — see `custom_digits_read_back`; (2) for the
+    pattern `'lit1'` spec `'lit2'` — quoted texts of any characters but the quote, digits and `# 0 . ,` included — the text
+    shown is exactly `lit1`, the number text, `lit2`: the spec is never looked for, nor replaced, inside quoted text; (3) a
+    doubled quote is one literal quote, and a quote-free text is copied. -/
+theorem custom_literals_pass_through (zeros : List Nat) (a : Archive) (v v100 : FloatVal) (lit1 run lit2 ip dp : Text)
+    (hfs : a.formatString = ('\'' :: lit1) ++ ('\'' :: (run ++ (('\'' :: lit2) ++ ['\'']))))
+    (hcur : a.currencyCode = []) (h1 : ∀ c ∈ lit1, c ≠ '\'') (h2 : ∀ c ∈ lit2, c ≠ '\'') (hn1 : lit1 ≠ []) (hn2 : lit2 ≠ [])
+    (hne : run ≠ []) (hr : ∀ c ∈ run, isSpecChar c = true) (hs : splitSpec run = .ok (ip, dp)) :
+    (∃ body, numberBody a ip dp (chosenValue a v v100).repr = .ok body ∧
+      decodeNumberFormat zeros a v v100 = .ok (lit1 ++ body ++ lit2)) ∧
+    (∀ (t : Text) (b : Bool), expandQuotes ('\'' :: '\'' :: t) b = '\'' :: expandQuotes t b) ∧
+    (∀ (t : Text) (b : Bool), (∀ c ∈ t, c ≠ '\'') → expandQuotes t b = t) :=
+  ⟨decode_quoted_literals zeros a v v100 lit1 run lit2 ip dp hfs hcur h1 h2 hn1 hn2 hne hr hs,
+   fun t b => by simp [expandQuotes], fun t b h => expandQuotes_noquote t b h⟩
+
+/-- **custom padding only pads** — two renderings of the same value under any two archives / integer specs whose
+    decimal specs have the same length (different padding kinds, widths, separators) show the same number: the integer
+    digits are the numeral of the same integer preceded by zeros only (or nothing, when it is zero), and the fraction
+    digits completed with zeros are the same `nd` decimals. -/
+theorem custom_padding_only_pads (a a' : Archive) (ip ip' dp dp' : Text) (value : Dec) (body body' : Text)
+    (hl : dp.length = dp'.length) (h : numberBody a ip dp value = .ok body) (h' : numberBody a' ip' dp' value = .ok body') :
+    let n := scaleTo value dp.length / 10 ^ dp.length
+    ((intDigits body = [] ∧ n = 0) ∨ ∃ k, intDigits body = List.replicate k '0' ++ natStr n) ∧
+    ((intDigits body' = [] ∧ n = 0) ∨ ∃ k, intDigits body' = List.replicate k '0' ++ natStr n) ∧
+    readDigits (intDigits body) 0 = readDigits (intDigits body') 0 ∧
+    padRight dp.length (fracDigits body) = padRight dp.length (fracDigits body') := by
+  intro n
+  obtain ⟨h1, h2⟩ := numberBody_digits a ip dp value body h
+  obtain ⟨h1', h2'⟩ := numberBody_digits a' ip' dp' value body' h'
+  rw [← hl] at h1' h2'
+  obtain ⟨iv, fv, r1, _, _, _, r5⟩ := numberBody_reads_back a ip dp value body h
+  obtain ⟨iv', fv', r1', _, _, r4', r5'⟩ := numberBody_reads_back a' ip' dp' value body' h'
+  refine ⟨h1, h1', ?_, by rw [h2, h2']⟩
+  have e1 : readDigits (intDigits body) 0 = some n := by
+    rcases h1 with ⟨e, z⟩ | ⟨k, e⟩
+    · have hn : n = 0 := z
+      rw [e, hn]; rfl
+    · rw [e, readDigits_zeros]; simpa using readDigits_natStr n
+  have e2 : readDigits (intDigits body') 0 = some n := by
+    rcases h1' with ⟨e, z⟩ | ⟨k, e⟩
+    · have hn : n = 0 := z
+      rw [e, hn]; rfl
+    · rw [e, readDigits_zeros]; simpa using readDigits_natStr n
+  rw [e1, e2]
+
+/-- **totality** — `_decode_number_format` raises nothing for a well-formed archive, whatever the value … -/
+theorem custom_total (zeros : List Nat) (a : Archive) (v v100 : FloatVal) (h : WellFormed zeros a) :
+    ∃ t, decodeNumberFormat zeros a v v100 = .ok t := decode_total zeros a v v100 h
+
+/-- … every archive `add_custom_decimal_format_archive` builds is well-formed (any padding kinds, any numbers of integer
+    and decimal tokens, separator on or off) … -/
+theorem custom_builder_well_formed (zeros : List Nat) (ifmt dfmt : PaddingType) (ni nd : Nat) (thousands : Bool) :
+    WellFormed zeros (buildArchive ifmt dfmt ni nd thousands) := build_wellFormed zeros ifmt dfmt ni nd thousands
+
+/-- … hence every format the API can create renders every value. -/
+theorem custom_api_total (zeros : List Nat) (ifmt dfmt : PaddingType) (ni nd : Nat) (thousands : Bool) (v v100 : FloatVal) :
+    ∃ t, decodeNumberFormat zeros (buildArchive ifmt dfmt ni nd thousands) v v100 = .ok t :=
+  custom_total zeros _ v v100 (custom_builder_well_formed zeros ifmt dfmt ni nd thousands)
+
+/-- scientific custom spec: literal text around `f"{value:.pE}"` with `p` = the number of decimal tokens. -/
+theorem custom_scientific (zeros : List Nat) (a : Archive) (v v100 : FloatVal) (m : SpecMatch) (ip dp : Text)
+    (hm : findSpec zeros (maskQuoted (patternOf a) false) 0 = some m) (hs : splitSpec m.spec = .ok (ip, dp))
+    (hsci : m.sci = true) (h4 : 4 ≤ dp.length) :
+    decodeNumberFormat zeros a v v100 =
+      .ok (literalBefore a m ++ formatScientific (chosenValue a v v100).exact (dp.length - 4) ++ literalAfter a m) :=
+  decode_structure_sci zeros a v v100 m ip dp hm hs hsci h4
+
+/-- **dispatch** — `Cell.formatted_value` raises only a KeyError and only for a custom uid the document's custom format
+    map does not hold; a number cell whose number format carries a custom uid mapped to a custom number archive (no
+    fraction replacement) is rendered by `_decode_number_format`, durations and dates come first. -/
+theorem custom_dispatch (c : CellFormats) :
+    (∀ e, formattedValueRenderer c = .error e →
+        e = .KeyError ∧ ∃ f, selectFormat c = some f ∧ f.customUid = some none) ∧
+    (c.duration = false → c.date = false → c.isText = false → c.isBool = false → c.currencyFmt = none →
+      ∀ ft, c.numFmt = some ⟨ft, some (some (.customNumber, false))⟩ →
+        formattedValueRenderer c = .ok .decodeNumberFormat) := by
+  constructor
+  · intro e h
+    unfold formattedValueRenderer at h
+    split at h
+    · cases h
+    · split at h
+      · cases h
+      · split at h
+        · exact customFormatRenderer_error c e h
+        · cases h
+  · intro hd hdt ht hb hc ft hn
+    simp [formattedValueRenderer, customFormatRenderer, selectFormat, hd, hdt, ht, hb, hc, hn]
+
+/-! ### non-vacuity (custom) -/
+
+private def arch (fs : String) (thou : Bool) (nsi nsd : Nat) : Archive :=
+  ⟨fs.toList, true, [], thou, nsi, nsd, false, false, 0, 0, false, 0, 0, 0, false⟩
+private def fv (neg : Bool) (m : Nat) (e : Int) : FloatVal := ⟨⟨neg, m, e⟩, ⟨neg, m, e⟩⟩
+
+example : decodeNumberFormat [48] (arch "0,000.00" true 4 2) (fv false 9995 (-4)) (fv false 9995 (-2)) = .ok "0,001.00".toList := by
+  decide
+example : decodeNumberFormat [48] (arch "#.##" false 0 0) (fv true 23 (-2)) (fv true 23 0) = .ok "-0.23".toList := by decide
+example : decodeNumberFormat [48] (arch "0.00" false 1 2) (fv true 4 (-3)) (fv true 4 (-1)) = .ok "0.00".toList := by decide
+example : decodeNumberFormat [48] (arch "'No. '0' of 10'" false 1 0) (fv false 25 (-1)) (fv false 250 0) = .ok "No. 3 of 10".toList := by
+  decide
+example : decodeNumberFormat [48] (arch "00.0%" false 2 1) (fv false 285 (-3)) (fv false 28499999999999996 (-15)) =
+    .ok "28.5%".toList := by decide
+example : decodeNumberFormat [48] (arch "0.0.0" false 1 1) (fv false 1 0) (fv false 100 0) = .error .ValueError := by decide
+example : buildArchive .zeros .spaces 7 2 true =
+    ⟨"0,000,000.00".toList, true, [], true, 7, 0, false, true, 2, 3, true, 7, 0, 2, false⟩ := by decide
+example : WellFormed [48] (arch "'1.5x '#.##" false 0 0) := by
+  intro m hm
+  have : findSpec [48] (maskQuoted (patternOf (arch "'1.5x '#.##" false 0 0)) false) 0 = some ⟨7, "#.##".toList, false⟩ := by decide
+  rw [this] at hm; injection hm with hm; subst hm
+  exact ⟨Or.inr (by decide), by simp⟩
+example : formattedValueRenderer ⟨false, false, false, false, none, none, none, some ⟨.customNumber, some none⟩⟩ = .error .KeyError := by
+  decide
+
+end Custom
 
 end NumbersModel.Props.C13
